@@ -5,6 +5,21 @@ import json, subprocess, os
 ROOT = os.path.dirname(os.path.dirname(os.path.abspath(__file__)))
 
 CLAIMED = {
+ "C11": dict(level="exploration", design="§6 C11",
+   text="Conservation / exactly-once check on the render stage of simulated runs: every report (end-to-end over generated trees, and synthetic findings maps) is read back and compared as a multiset of (pattern, file, line) with the findings handed to the renderer, under seeded listing and iteration orders. The input space itself is only sampled by a seeded generator; simulation contributes the orders under which each map is rendered.",
+   note="Trusted base: 30-row table configuration name -> module with the section text; parse-back convention (lists after '### Lines', split at last ':'). Findings maps restricted to shapes analyze_dir can produce.",
+   technique="deterministic simulation of the render stage under seeded iteration/listing orders with a parse-back conservation oracle",
+   engine="simproc"),
+ "C12": dict(level="exploration", design="§6 C12",
+   text="Same simulated runs as C11, judged for totals, category parts and severity headings; plus the complete sub-space 16 vulnerability-pattern subsets x 24 iteration orders x 2 multiplicity shapes (768 cases, enumerated). Everything outside that sub-space is seeded sampling.",
+   note="Trusted base: severity of the four vulnerability patterns (from the property text), the markers '(Total Optimizations N)' / '(Total Vulnerabilities N)' and the three '## <Severity> Risk' lines.",
+   technique="deterministic simulation of the render stage under every iteration order of the vulnerability map (exhaustive sub-space) plus seeded runs, invariant on totals/headings",
+   engine="simproc"),
+ "C13": dict(level="exploration", design="§6 C13",
+   text="Groups of executions that must agree byte-for-byte: one tree and pattern set under 6 schedules differing in listing permutation, iteration permutation and configured pattern order; and one findings set built and iterated in 6 different orders. Seeded search over schedules; a clean batch is evidence, not proof.",
+   note="SeamMap replaces the real RandomState by seeded permutations (all orders the HashMap contract allows); detector-local hash containers are not under the seed natively (audited order-insensitive).",
+   technique="deterministic simulation: seeded search over listing/iteration/pattern-order schedules, byte-equality of reports across schedules of the same findings",
+   engine="simproc"),
  "C03": dict(level="exploration", design="§6 C03",
    text="Seeded simulation of the real directory walkers over in-memory trees under adversarial listing orders, judged against an independent walk that calls the real per-file function on every eligible file (exact multiset equality). Sampling, not proof; the failing traces of this class are tiny (two files, one sub-directory, one transposition) and the quick tier hits the merge path thousands of times.",
    note="Trusts the per-file functions as their own oracle; std::fs is replaced by the in-memory Env behind the cfg seam (simbin tier runs the real binary on a real scratch tree); eligible files are screened valid inputs.",
